@@ -120,13 +120,14 @@ FILTERS = (None, "ac", "")
 
 
 def _check_morph(case):
-    ea, eb, fi = case
-    ta = IT("t", list(ea), 0, 5)
+    ea, eb, fi = case[:3]
+    lo, hi = case[3] if len(case) > 3 else (0, 5)  # the source tier's own span (it need not start at 0)
+    ta = IT("t", list(ea), lo, hi)
     tb = IT("u", list(eb), 0, 4)
     filt = None if FILTERS[fi] is None else (lambda l, keep=FILTERS[fi]: l in keep)
     before = (canon(ta), canon(tb))
     st, r, _ = call(ta.morph, tb, filt)
-    tag = f"morph source={ea} target={eb} filter={FILTERS[fi]!r}"
+    tag = f"morph source={ea} span=({lo},{hi}) target={eb} filter={FILTERS[fi]!r}"
     viols = []
     if (canon(ta), canon(tb)) != before:
         viols.append(Viol("morph-mutated-operand", tag))
@@ -156,7 +157,7 @@ def _check_morph(case):
         for (g1, g2), (a1, a2) in zip(zip(got, got[1:]), zip(ea, ea[1:])):
             if (g2[0] - g1[1]) != (a2[0] - a1[1]):
                 msg = f"gap between {a1} and {a2} changed from {a2[0] - a1[1]} to {g2[0] - g1[1]}"
-        if msg is None and ((r.maxTimestamp - got[-1][1]) != (5 - ea[-1][1]) or r.minTimestamp != 0):
+        if msg is None and ((r.maxTimestamp - got[-1][1]) != (hi - ea[-1][1]) or r.minTimestamp != lo):
             msg = f"trailing gap / span: result span ({r.minTimestamp},{r.maxTimestamp}), last end {got[-1][1]}"
     if msg is None and wellformed(r):
         msg = "ill-formed result: " + wellformed(r)
@@ -207,6 +208,18 @@ def parts(tier):
                     if len(A) != len(B) and fi:
                         continue
                     yield (D.labelled(A, "abc"), D.labelled(B, "xyz"), fi)
+        # source tiers whose span does not start at 0 (negative start; start at the first interval; start after 0)
+        for A in sets3:
+            if not A:
+                continue
+            for B in sets3[::3]:
+                if len(A) != len(B):
+                    continue
+                for span in ((-2.0, 5), (A[0][0], 6), (A[0][0] / 2, 5.5)):
+                    if span[0] == 0:
+                        continue
+                    for fi in (0, 1):
+                        yield (D.labelled(A, "abc"), D.labelled(B, "xyz"), fi, span)
 
     hseeds = [("I", "t", 0.0, 4.0, D.labelled(x)) for x in D.interval_sets((0.0, 1.25, 2.0, 3.0), 2)[::2]] + \
              [("P", "t", 0.0, 4.0, D.labelled_points(x)) for x in D.point_sets((0.0, 1.25, 3.0), 2)]
@@ -230,7 +243,8 @@ def parts(tier):
                        "dejittered, the reference tier is untouched, tier order kept (a praatio error from the spacing guard is accepted)",
                   bounds={}),
         InputPart("morph", gen_morph, _check_morph,
-                  rule="all ordered pairs of interval sets (<=3) on a 5-grid x filters {None, labels a/c, none}: durations of selected "
+                  rule="all ordered pairs of interval sets (<=3) on a 5-grid x filters {None, labels a/c, none} (source span 0..5, and spans starting "
+                       "below 0, at and before the first interval): durations of selected "
                        "intervals = the target's, labels, gaps, first start and trailing gap preserved; unequal counts raise SafeZipException",
                   bounds={}),
     ]
